@@ -50,6 +50,7 @@ EXPECT = {
     'X10': [('FixtureShared::Decode', 'lat')],
     'S2': [('FixtureConic::Forward', 'gamma')],
     'D1': [('FixtureConic::SetScale', '_nrho0')],
+    'H1': [('FixtureConic::SetScale', '_k0')],
     'I1': [('FixtureHarm::T', 'invR')],
     'DSP': [('FixtureHarm::Value', 'Engine<FULL>')],
     'SW1': [('FixtureLint::Use', 'Cell(m,n)')],
@@ -99,6 +100,9 @@ def run_controls(rules):
         elif r == 'S2':
             from .rules import parity
             res = parity.rule_S2(fx, [NS + 'FixtureConic'])[0]
+        elif r == 'H1':
+            from .rules import homog
+            res = homog.rule_H1(fx, [NS + 'FixtureConic'])[0]
         elif r == 'D1':
             from .rules import derived
             res = derived.rule_D1(fx, [NS + 'FixtureConic'])[0]
